@@ -222,7 +222,7 @@ func runC14(h *H) {
 		c.rc.cmd("SELECT C")
 		setup.rc.cmd("SELECT A")
 		var hdr strings.Builder
-		for i := 0; i < 300; i++ {
+		for i := 0; i < 2500; i++ {
 			fmt.Fprintf(&hdr, "X-Filler-%d: %s\r\n", i, strings.Repeat("v", 60))
 		}
 		rounds := h.Pick(60, 300)
